@@ -80,6 +80,24 @@ theorem delivered_exactly_once_in_order (s : Slave) (i : Nat) (hi : i < s.conns.
     asduLog (recvRun s i ms).1.log = asduLog s.log ++ (expectedDeliveries s i ms).map (fun a => (i, a)) :=
   deliveries_spec ms s i hi
 
+/-- **"iff its N(S) equals the number of I-format APDUs accepted so far".** On a connection whose V(R) was 0 (just opened),
+after ANY sequence of received messages `ms`, the next message `m` is deliverable - and then handed over exactly once,
+`delivered_exactly_once_in_order` - exactly when it is a well-framed I-format APDU on a started connection whose N(S) equals
+the number of I-format APDUs accepted so far modulo 32768 (C03 `vr_counts_accepted`), its N(R) lies in the window and the
+ASDU header is complete. -/
+theorem deliverable_iff_ns_is_accepted_count (s : Slave) (i : Nat) (hi : i < s.conns.length) (ms : List (List Nat)) (m : List Nat)
+    (h0 : (s.conn i).vr = 0) :
+    Deliverable (recvAll s i ms) i m ↔
+      (m.getD 0 0 = 0x68 ∧ m.getD 1 0 = m.length - 2 ∧ m.getD 2 0 &&& 1 = 0 ∧ 7 ≤ m.length ∧
+        ((recvAll s i ms).conn i).state = 1 ∧
+        frameNS m = acceptedCount s i ms % 32768 ∧
+        Iec.KWindow.valid ((recvAll s i ms).conn i).vs ((recvAll s i ms).conn i).win (frameNR m) = true ∧
+        (recvAll s i ms).p.asduHdr ≤ m.length - 6) := by
+  have hv := vr_counts_accepted ms s i hi (by rw [h0]; decide)
+  rw [h0, Nat.zero_add] at hv
+  unfold Deliverable IAccept
+  rw [hv]
+
 /-- the first message that is an I-format APDU with a wrong N(S) on a started connection closes it and nothing of it or
 after it is delivered (instance of the above, stated for one message) -/
 theorem wrong_ns_delivers_nothing (s : Slave) (i : Nat) (hi : i < s.conns.length) (m : List Nat) (ms : List (List Nat))
@@ -159,6 +177,18 @@ APDUs with N(S) = V(R), N(R) inside the window and a complete ASDU header, once 
 theorem client_delivered_exactly_once_in_order (c : Cli) (ms : List (List Nat)) :
     asduLogC (recvRunC c ms).1.log = asduLogC c.log ++ expectedDeliveriesC c ms :=
   deliveries_specC ms c
+
+/-- client: deliverable exactly when N(S) equals the number of I-format APDUs accepted so far (V(R) was 0 when the connection
+was opened), N(R) lies in the window and the ASDU header is complete -/
+theorem client_deliverable_iff_ns_is_accepted_count (c : Cli) (ms : List (List Nat)) (m : List Nat) (h0 : c.vr = 0) :
+    CDeliverable (recvAllC c ms) m ↔
+      ((7 ≤ m.length ∧ m.getD 2 0 &&& 1 = 0 ∧ Iec.Srv104.frameNS m = acceptedCountC c ms % 32768 ∧
+        valid (recvAllC c ms).vs (recvAllC c ms).win (Iec.Srv104.frameNR m) = true) ∧
+        (recvAllC c ms).p.asduHdr ≤ m.length - 6) := by
+  have hv := vr_counts_acceptedC ms c (by rw [h0]; decide)
+  rw [h0, Nat.zero_add] at hv
+  unfold CDeliverable CAccepted
+  rw [hv]
 
 end Client
 
